@@ -49,6 +49,9 @@ def _case(draw, tier):
         "face_c": draw(st.sampled_from(["none", "lonlat", "lonlat360", "xyz", "both"])),
         "edge_c": draw(st.sampled_from(["none", "lonlat", "xyz", "both"])),
         "edge_seed": draw(st.integers(0, 999)),
+        # history: afterwards the face centres are rebuilt through the public API; what the grid then reports must
+        # still be one point per face in both coordinate systems
+        "recentre": draw(st.sampled_from([None, None, "cartesian average", "welzl"])),
     }
     return c
 
@@ -63,6 +66,8 @@ def classify(case):
     labs += [l for l in ml if l in ("pole-node", "node-on-antimeridian", "antimeridian-face", "partial", "mixed-size")]
     if case["src"] == "topo-centres":
         labs += ["face_c:" + case["face_c"], "edge_c:" + case["edge_c"]]
+    if case.get("recentre"):
+        labs.append("history:recentre-" + case["recentre"].split()[0])
     if case["normalize_at"] is not None:
         labs.append("normalize-called")
     if case["src"].startswith("mpas"):
@@ -339,4 +344,28 @@ def run_case(case, ctx):
                 bad("normalize_direction_only", f"{kind}:direction-changed", f"max change {np.abs(d).max()}")
             if np.any(np.abs(n1 - 1) > 1e-12):
                 bad("normalize_direction_only", f"{kind}:not-unit-after", f"|xyz| after normalisation {n1[np.argmax(np.abs(n1 - 1))]!r}")
+    if case.get("recentre") and not fails:
+        how = case["recentre"]
+        g.construct_face_centers(how)
+        ctx.ev("same_point_after_recentre")
+        lon, lat = np.asarray(g.face_lon.values, float), np.asarray(g.face_lat.values, float)
+        x, y, z = (np.asarray(getattr(g, "face_" + c).values, float) for c in "xyz")
+        if not (len(lon) == len(lat) == len(x) == len(y) == len(z) == len(mesh["faces"])):
+            bad("same_point", f"face:length-after-{how}", f"after construct_face_centers({how!r}): lengths {len(lon)}, {len(lat)}, {len(x)}, {len(y)}, {len(z)} for {len(mesh['faces'])} faces")
+            return fails
+        if lon.size and (lon.min() < -180 - 1e-12 or lon.max() > 180 + 1e-12 or lat.min() < -90 - 1e-12 or lat.max() > 90 + 1e-12):
+            bad("ranges", f"face:out-of-range-after-{how}", f"face_lon in [{lon.min()}, {lon.max()}], face_lat in [{lat.min()}, {lat.max()}]")
+        for i in range(len(lon)):
+            nrm = math.sqrt(x[i] ** 2 + y[i] ** 2 + z[i] ** 2)
+            if not (nrm > 0) or not math.isfinite(nrm):
+                bad("same_point", f"face:degenerate-after-{how}", f"face {i}: xyz ({x[i]}, {y[i]}, {z[i]})")
+                break
+            a, b = _pos_ll(lon[i], lat[i]), (x[i] / nrm, y[i] / nrm, z[i] / nrm)
+            if not _same(a, b):
+                bad("same_point", f"face:differs-after-{how}", f"after construct_face_centers({how!r}): face {i}: lon/lat ({lon[i]!r}, {lat[i]!r}) vs xyz/|xyz| {b} (angle {math.degrees(S.angle(a, b)):.6f} deg)")
+                break
+            # (centres whose xyz the source supplied may be kept as supplied: only derived ones must be unit length)
+            if abs(nrm - 1) > 1e-12 and ("face_xyz" not in info["supplied"] or normalized):
+                bad("unit_length", f"face:derived-after-{how}", f"face {i}: |xyz| = {nrm!r}")
+                break
     return fails
